@@ -1,15 +1,46 @@
 """C19  The terminal shows a true window of the buffer with the cursor on its character."""
 from vlib import *
-import gen_vi
+import gen_vi, gen_ren
 from props import vilib
 
-PROP = "C19"; MODULES = ["NeatviVerif.Props.C19", "NeatviVerif.Props.C19b"]; MODE = "vi19"
+PROP = "C19"; MODULES = ["NeatviVerif.Props.C19", "NeatviVerif.Props.C19b", "NeatviVerif.Props.C19c"]; MODE = "vi19"
+
+LED_SRCS = ["probe_led.c"] + [REPO + "/" + f for f in ("ex.c", "lbuf.c", "mot.c", "sbuf.c", "ren.c", "dir.c", "syn.c", "reg.c",
+            "uc.c", "term.c", "rset.c", "rstr.c", "regex.c", "cmd.c", "tag.c", "conf.c")]
+_led = {}
+def led_probe():
+    """probe_led includes led.c (led_render is static); built once per run next to the vi driver"""
+    if "p" not in _led:
+        _led["wd"] = Workdir(); wd = _led["wd"].__enter__()
+        _led["p"] = build_harness(wd, "probe_led", LED_SRCS, extra=["-Wl,--wrap=term_cols"])
+    return _led["p"]
+
+def led_cases(rng, n, maxlen):
+    out = []
+    for i in range(n):
+        k = rng.below(10)
+        if k < 5:      # plain lines: printable ASCII, tabs, wide characters (the reference judges these)
+            m = rng.below(maxlen + 1)
+            cps = [rng.choice([9] if rng.below(8) == 0 else ([0x4e2d, 0x6587, 0x3042] if rng.below(6) == 0 else list(range(32, 127)))) for _ in range(m)]
+            if rng.below(10): cps.append(10)
+        else:
+            cps = gen_ren.gen_line(rng, maxlen)
+        s = "".join(chr(c) for c in cps).encode("utf-8")
+        cols = rng.choice([1, 2, 5, 10, 20, 40, 80])
+        width = 2 * len(cps) + 4
+        left = rng.choice([0, 0, 0, rng.below(width), rng.below(width), cols, 2 * cols])
+        out.append("led line=%s left=%d cols=%d order=%d lim=%d td=%d shape=%d" % (hexs(s), left, cols,
+                   rng.choice([1, 1, 2, 0]), rng.choice([256, 1000, len(cps)]), rng.choice([0, 1, 1, -1, 2, -2]), rng.below(2)))
+    return out
 
 def streams(probe, tier, seed, wide):
     rng = Rng(seed)
     big = tier != "quick" or wide
     cases = gen_vi.screen_cases(rng, 8000 if big else 500, 12 if big else 9)
-    return [vilib.vi_stream(probe, "screen", MODE, cases,
+    lrng = Rng(seed + 77)
+    led = correspond("led", [led_probe()], led_cases(lrng, 60000 if big else 4000, 40 if big else 14),
+        rule="led_render (the text of one screen row) for random lines (plain ASCII / tabs / wide characters, and the mixed-direction lines of the layout generator) x window [left, left+cols) with cols 1..80 and left inside, at the edge of and beyond the line x order x td x shape: the model's row text equals the implementation's (escapes stripped), and for plain left-to-right lines the row shows exactly the characters whose cells lie inside the window, each at its column, blanks elsewhere")
+    return [led, vilib.vi_stream(probe, "screen", MODE, cases,
         "sequences of scrolls (^D ^U ^F ^B ^E ^Y z RET z. z- H M L G), motions, edits (operators, inserts, puts, joins, line deletes above / across / below the window), undo/redo, ex commands and ^L over buffers empty, shorter and longer than the window, windows 4..24 rows x 10..80 columns, lines shorter and longer than the width; the terminal byte stream is interpreted by an emulator and at every command boundary compared with what a full repaint draws on a blank second screen; the repaint is compared with the buffer window for printable-ASCII lines; the window must hold the cursor line and the terminal cursor must be on a cell of the cursor character; the model runs on the same keys")]
 
 def main(tier, seed, replay):
